@@ -11,12 +11,12 @@ CLAIMED = {
 }
 
 CLAIMED["C01"] = ("exploration",
-   "Random policies over the library's whole x86-64 table (sizes biased to the 127/255-entry jump boundaries where the assembler changes strategy) are built through Builder.Build; the exported []SockFilter is validated against a re-implementation of the kernel's acceptance rules and interpreted by an independent cBPF interpreter on a set of numbers that, for compare-only programs, partitions all 2^32 numbers (every constant K and K+-1) x 8 architecture tags x random argument words, and compared with the policy model; sampled numbers are also issued in real children with the filter installed (kernel differential); three policies are brute-forced over all 2^32 numbers x 3 arch tags in the thorough tier.",
+   "Random policies over the library's whole x86-64 table (sizes biased to the 127/255-entry jump boundaries where the assembler changes strategy) are built through Builder.Build; the exported []SockFilter is validated against a re-implementation of the kernel's acceptance rules and interpreted by an independent cBPF interpreter on a set of numbers that, for compare-only programs, partitions all 2^32 numbers (every constant K and K+-1) x 8 architecture tags x random argument words, and compared with the policy model; sampled numbers are also issued in real children with the filter installed (kernel differential); three policies are brute-forced over all 2^32 numbers x 3 arch tags in the thorough tier; a held filter must read the same after later Build calls, and consecutive Execve calls on one pooled container must each run under their own policy (sample syscalls judged at the kernel).",
    "Trusts internal/bpfvm (cross-validated against the running kernel on every sampled number), the uapi header numbering, and that the partition argument holds only while the program consists of LD abs/JEQ/JGE/JGT/RET (the check classifies each program and reports it). Foreign-ABI behaviour is decided on filter semantics, not at the kernel.",
    "property-based testing (rapid) with a reference interpreter + kernel differential", "§3 C01")
 
 CLAIMED["C02"] = ("exploration",
-   "Generated symlink forests and model-guided pathname strings are pushed through 26 traced path syscalls of a real ptrace.Runner run (scripted freestanding tracee); every call under test is banned so the forest is immutable, and the path/class the policy was shown is compared with the kernel's own O_PATH resolution of the same (base directory, pathname) computed by the harness. Exploration is the right level: the input space (forests x strings x encodings) is unbounded and the oracle is the kernel itself.",
+   "Generated symlink forests and model-guided pathname strings are pushed through 26 traced path syscalls of a real ptrace.Runner run (scripted freestanding tracee); (openat2 also with RESOLVE_* bits, link texts with '..' after a symlink, 38..41-link chains); every call under test is banned so the forest is immutable, and the path/class the policy was shown is compared with the kernel's own O_PATH resolution of the same (base directory, pathname) computed by the harness. Exploration is the right level: the input space (forests x strings x encodings) is unbounded and the oracle is the kernel itself.",
    "Trusts the kernel resolver as oracle; /proc/self|thread-self/{cwd,root,fd/N} prefixes are substituted textually by the (canonical) directory they denote. Calls whose intermediate components do not resolve, and final symlinks under no-follow calls, are counted but not judged.",
    "property-based testing (rapid) with a differential oracle (kernel path resolution)", "§3 C02")
 CLAIMED["C03"] = ("exploration",
@@ -24,7 +24,7 @@ CLAIMED["C03"] = ("exploration",
    "Verdict of runs where a kill happens in a process main does not wait for is only required to be Disallowed Syscall or the program's own ending (timing-dependent). Scheduling between tasks is the OS's; not enumerated.",
    "property-based testing (rapid), probe self-report + side-effect oracle", "§3 C03")
 CLAIMED["C15"] = ("exploration",
-   "Generated hostile scripts (bad/odd pointers, unterminated and PATH_MAX-sized strings, strings at page ends, 64-bit garbage in int registers, unreadable open_how, unknown/negative/x32 syscall numbers, thread/child death races, vfork and thread storms, self-stop signals, orphans) run under the real ptrace.Runner with a recording handler and with the real filehandler; the result must be one of the seven program verdicts, consistent with the program's own ending for single-task scripts, never Runner Error or panic text, and the run must return within 15 s.",
+   "Generated hostile scripts (bad/odd pointers, unterminated and PATH_MAX-sized strings, strings at page ends, 64-bit garbage in int registers, unreadable open_how, unknown/negative/x32 syscall numbers, thread/child death races, children killed at birth, vfork and thread storms, self-stop signals, orphans, symlink cycles through real directories and other hostile file-system shapes as path arguments) run under the real ptrace.Runner with a recording handler and with the real filehandler; the result must be one of the seven program verdicts, consistent with the program's own ending for single-task scripts, never Runner Error or panic text, and the run must return within 15 s.",
    "Death races are sampled, not enumerated: the harness cannot pin the scheduler between wait4 and the tracer's ptrace request. A program that stops itself and stays stopped is not judged as a hang.",
    "property-based testing / grammar-based fuzzing of tracee programs (rapid)", "§3 C15")
 
@@ -38,7 +38,7 @@ CLAIMED["C06"] = ("exploration",
    "The helper marks its own stdio close-on-exec (as the container init does) so that every unlisted descriptor seen in the program is the launcher's doing; listed numbers that are not open in the caller are not generated (caller error).",
    "property-based testing (rapid) with a model of the expected descriptor table; probe self-report", "§3 C06")
 CLAIMED["C08"] = ("exploration",
-   "Generated RLimits records (zero/non-zero fields, CPUHard below/equal/above CPU, values around 2^32, 2^40, 2^63-1) are launched in sequences of 1..3 in each runner and the probe's getrlimit report of all 16 resources is compared with PrepareRLimit() and with the launcher's own limits; six limit-crossing workloads x three runners check the TLE/OLE/MLE/Normal verdicts and measurements; pipe.Buffer is fed by goroutine and real-process writers with totals around the cap and chunk sizes 1..65536 and checked for min(total,N+1) retained prefix bytes, full writes and Done.",
+   "Generated RLimits records (zero/non-zero fields, CPUHard below/equal/above CPU, values around 2^32, 2^40, 2^63-1) (and, one case in eight, a record the kernel refuses placed before the last one: the program must then not run) are launched in sequences of 1..3 in each runner and the probe's getrlimit report of all 16 resources is compared with PrepareRLimit() and with the launcher's own limits; six limit-crossing workloads x three runners check the TLE/OLE/MLE/Normal verdicts and measurements; pipe.Buffer is fed by goroutine and real-process writers with totals around the cap and chunk sizes 1..65536 and checked for min(total,N+1) retained prefix bytes, full writes and Done.",
    "CPU/memory verdict cases use >=3x margins; rows a pid-namespace init cannot produce (SIGXCPU/SIGXFSZ dropped by the kernel) are relaxed; container Execve has no time/memory bound of its own (cgroup), so only rlimit-driven verdicts are judged there.",
    "property-based testing (rapid) + enumerated workloads; probe self-report", "§3 C08")
 
@@ -53,7 +53,7 @@ CLAIMED["C07"] = ("fault_enumeration",
    "fault enumeration by real inputs + property-based testing (rapid)", "§3 C07")
 
 CLAIMED["C05"] = ("exploration",
-   "Generated mount tables (ro/rw binds of directories and single files, tmpfs with/without size, proc ro/rw, nested targets inside tmpfs and binds, a filtered non-existent source; for the container also symlinks, shuffled mask-path lists with existing/missing entries, with/without /dev/null) are built through unshare.Runner (raw in-child mount sequence) and container.Builder; a probe inside runs a modification battery on the root and on every mount, lists / and /../.., and the harness reads /proc/<pid>/mountinfo from the host while the probe waits. Compared with a model: EROFS unless declared writable, effects only in rw bind sources, only configured top-level names, host secret nowhere, /old_root gone, mount table = ro tmpfs root + configured entries.",
+   "Generated mount tables (ro/rw binds of directories and single files, tmpfs with/without size, proc ro/rw, nested targets inside tmpfs and binds, a filtered non-existent source; for the container also symlinks, shuffled mask-path lists with existing/missing entries, with/without /dev/null, with/without an InitCommand; binds through Builder.WithBind or as hand-written mount.Mount records with other valid flag words) are built through unshare.Runner (raw in-child mount sequence) and container.Builder; a probe inside runs a modification battery on the root and on every mount, lists / and /../.., and the harness reads /proc/<pid>/mountinfo from the host while the probe waits. Compared with a model: EROFS unless declared writable, effects only in rw bind sources, only configured top-level names, host secret nowhere, /old_root gone, mount table = ro tmpfs root + configured entries.",
    "Sub-mounts inside bind sources and nosuid/nodev flags of rw binds are not asserted (the property does not state them); a mask on top of a configured mount point is not generated; tables the implementation refuses (Build/launch error) are counted, not judged.",
    "property-based testing (rapid) with a model of the expected file-system view; probe self-report + host mountinfo", "§3 C05")
 
@@ -68,7 +68,7 @@ CLAIMED["C14"] = ("exploration",
    "property-based testing (rapid) with a sequential per-item model", "§3 C14")
 
 CLAIMED["C13"] = ("exploration",
-   "Reset: containers with 1..3 tmpfs mounts (one nested), with/without a credential generator; 1..3 generated programs create files, mode-000 directories with content, dot-names, hostile names, symlinks (dangling, to /, /usr, ..), FIFOs, sockets, cross-directory hard links, chains of 80-character names up to depth 60 (> PATH_MAX), up to 2000 files in one directory, files held open by a daemon; after Reset returns nil every tmpfs must be empty seen from the host through /proc/<init>/root and from a later program. Memfd: DupToMemfd over sizes 0..8 MiB around page boundaries from five reader kinds (incl. failing ones): exact content, offset 0, all four seals, every modification attempt fails, also after a sandboxed program was run from the descriptor and attacked /proc/self/exe and the inherited descriptor; failing readers give an error and leak nothing.",
+   "Reset: containers with 1..3 tmpfs mounts (one nested), with/without a credential generator; 1..3 generated programs create files, mode-000 directories with content, dot-names, hostile names, symlinks (dangling, to /, /usr, ..), FIFOs, sockets, cross-directory hard links, chains of 80-character names up to depth 60 (> PATH_MAX), up to 2000 files in one directory, files held open by a daemon, each run ending normally, synchronised after exec, refused by its callback before/after exec or cancelled once its files exist; a third part runs consecutive Execve calls with differing parameters (rlimits, descriptors, environment, exec by descriptor/path, filter, sync mode) and requires each program to see exactly its own; after Reset returns nil every tmpfs must be empty seen from the host through /proc/<init>/root and from a later program. Memfd: DupToMemfd over sizes 0..8 MiB around page boundaries from five reader kinds (incl. failing ones): exact content, offset 0, all four seals, every modification attempt fails, also after a sandboxed program was run from the descriptor and attacked /proc/self/exe and the inherited descriptor; failing readers give an error and leak nothing.",
    "A Reset that returns an error is counted, not judged. Writable bind mounts are not part of Reset's contract (doc.go: tmpfs work/tmp directories).",
    "property-based testing (rapid): generated programs + host/later-program observation; round-trip and immutability oracle for memfd", "§3 C13")
 
@@ -78,7 +78,7 @@ CLAIMED["C19"] = ("exploration",
    "stateful / model-based property testing (rapid) with a queue model; round-trip oracle", "§3 C19")
 
 CLAIMED["C20"] = ("exploration",
-   "Generated histories over a tree of groups under a unique prefix on the real v1 hierarchies of this machine and on a real cgroup2 mount in a private mount namespace (helper with second-stage re-exec): New / re-open of existing, externally created and partially pre-existing groups, Random with a collision-prone name source (tag-verif hook), Nest, AddProc of multi-threaded parked processes, limit setters with read-back, readers, Destroy of creating and merely-opening handles, 2..8 goroutines creating simultaneously. Model: created handles are distinct existing directories, Existing() is truthful, Destroy removes a group iff the handle created it, external groups survive, every thread of an added process is in the model's group in every hierarchy. Units: a real workload (250 ms CPU, 48 MiB) in a real group checks nanoseconds/bytes; a fake v2 tree with generated file contents checks the v2 readers and writers.",
+   "Generated histories over a tree of groups under a unique prefix on the real v1 hierarchies of this machine and on a real cgroup2 mount in a private mount namespace (helper with second-stage re-exec): New / re-open of existing, externally created and partially pre-existing groups, Random with a collision-prone name source (tag-verif hook), Nest (also onto a name somebody else made first), concurrent creators (also of a multi-level name whose parent is missing), AddProc of multi-threaded parked processes, limit setters with read-back, readers, Destroy of creating and merely-opening handles, 2..8 goroutines creating simultaneously. Model: created handles are distinct existing directories, Existing() is truthful, Destroy removes a group iff the handle created it, external groups survive, every thread of an added process is in the model's group in every hierarchy. Units: a real workload (250 ms CPU, 48 MiB) in a real group checks nanoseconds/bytes; a fake v2 tree with generated file contents checks the v2 readers and writers.",
    "cgroup2 controllers (memory.max, pids.max, cpu.max) cannot be enforced on the real v2 tree of this machine (bound to v1): written values are checked on the fake tree only. Limits the kernel refuses (child above parent) are counted, not judged.",
    "stateful / model-based property testing (rapid) on the real cgroup hierarchies + generated-content differential for readers", "§3 C20")
 
@@ -93,12 +93,12 @@ CLAIMED["C11"] = ("exploration",
    "property-based testing (rapid) over harness-owned cancellation schedules", "§3 C11")
 
 CLAIMED["C16"] = ("fault_enumeration",
-   "A helper controller process performs an operation (container idle / Execve / Open loop / Reset loop, a ptrace run, a namespace-runner launch) with a program that forks a signal-ignoring tree; the crash-point list (each named host point of Execve via the tag-verif hooks, inside SyncFunc, inside the 1st/4th Handler callback, while the program runs, idle, before Open/Reset) is enumerated completely and crossed with the program shapes, plus random delays of 0..20 ms. The harness SIGKILLs the controller at the point and requires that within 5 s the container init, every process carrying the run's tag and every other descendant of the controller (recorded with start times just before the kill) is gone.",
+   "A helper controller process performs an operation (container idle / Execve / Open loop / Reset loop, a ptrace run, forkexec.Runner under ptracer.Tracer directly with/without seccomp and credential change, a namespace-runner launch) with a program that forks a signal-ignoring tree; the crash-point list (each named host point of Execve via the tag-verif hooks, inside SyncFunc, right after the hand-shake with the child held by SIGSTOP, inside the 1st/4th Handler callback, while the program runs, idle, before Open/Reset) is enumerated completely and crossed with the program shapes, plus random delays of 0..20 ms. The harness SIGKILLs the controller at the point and requires that within 5 s the container init, every process carrying the run's tag and every other descendant of the controller (recorded with start times just before the kill) is gone.",
    "A *running* namespace-runner program is outside the statement (it names the container controller and the tracer); only the launch hand-shake of the namespace runner is covered. Zombies re-parented to the VM's init do not count as alive.",
    "crash-point enumeration + property-based testing (rapid) with a process-table oracle", "§3 C16")
 
 CLAIMED["C17"] = ("exploration",
-   "Generated workloads of 2..16 run descriptors (ptrace runs with 3/20/150 traced path calls on run-specific names and per-run handler decisions, namespace runs, Execve on up to 3 environments, Ping/Open on the same environments, some cancelled) are executed once sequentially and once concurrently from a start barrier with 0..2 ms stagger; per descriptor the status, exit code, identity of its marker descriptor, output bytes, return values seen by the program, handler record multiset and SyncFunc pid must be identical in both executions and be the descriptor's own; a separate part holds an Execve in flight for 3.6 s while Ping/Open are called on the same environment.",
+   "Generated workloads of 2..16 run descriptors (ptrace runs with 3/20/150 traced path calls on run-specific names and per-run handler decisions, namespace runs, Execve on up to 3 environments, Ping/Open on the same environments, launches that fail in execve, environments being built, some cancelled; application canary pipes opened and closed alongside) are executed once sequentially and once concurrently from a start barrier with 0..2 ms stagger; per descriptor the status, exit code, identity of its marker descriptor, output bytes, return values seen by the program, handler record multiset and SyncFunc pid must be identical in both executions and be the descriptor's own; a separate part holds an Execve in flight for 3.6 s while Ping/Open are called on the same environment.",
    "Schedule coverage is statistical (the OS scheduler inside forkAndExecInChild cannot be pinned); how far a cancelled program got is not compared. The thorough tier repeats the workloads under 8 shards.",
    "metamorphic property testing (rapid): alone vs. concurrent execution of the same workload", "§3 C17")
 
